@@ -218,7 +218,82 @@ def union_typed_fields(ctx, rule):
                             'operations)' % (n_fields, n_ops))
 
 
+def schema_memo_not_inherited(ctx):
+    """BaseSpec.get_schema() memoises the merged schema in the class
+    attribute `_full_schema` and reads it back through ordinary attribute
+    lookup, i.e. through inheritance: once a class WITH subclasses has its
+    schema memoised, a subclass that has not memoised its own yet validates
+    against the parent's schema from then on (for the polymorphic roots that
+    schema constrains next to nothing: malformed definitions are accepted or
+    crash in __init__).  The pinned tree is safe because get_schema is only
+    ever invoked on the class being instantiated (`self.get_schema()`) and,
+    by name, on classes without subclasses.  Decided: either the memo is
+    read per class (`cls.__dict__`), or every receiver of get_schema is
+    `self` or a class without subclasses - a receiver the function itself
+    treats as a polymorphic root (hasattr(x, '_polymorphic_key')) is one
+    with subclasses."""
+    prog = ctx.prog
+    r = ctx.rule('R11', 'the memoised schema of a spec class is never that '
+                 'of its parent class', 'WMW (receivers)')
+    gs = prog.func('mistral.lang.base.BaseSpec.get_schema')
+    reads = [x for x in own_nodes(gs.node) if isinstance(x, ast.Attribute)
+             and x.attr == '_full_schema' and isinstance(x.ctx, ast.Load)]
+    own_lookup = any(isinstance(x, ast.Attribute) and x.attr == '__dict__'
+                     for x in own_nodes(gs.node)) and not reads
+    if own_lookup:
+        r.ok(ctx.construct(gs, extra='memo read per class'),
+             'the memo is looked up in the class itself')
+        return
+    n = 0
+    for m in sorted(prog.modules):
+        if not m.startswith('mistral.') or '.tests.' in m:
+            continue
+        tree = prog.module(m)
+        funcs = [x for x in ast.walk(tree)
+                 if isinstance(x, (ast.FunctionDef, ast.AsyncFunctionDef))]
+        owner = {}
+        for fn in funcs:
+            for y in ast.walk(fn):
+                owner.setdefault(id(y), fn)
+        for c in ast.walk(tree):
+            if not (isinstance(c, ast.Call) and
+                    isinstance(c.func, ast.Attribute) and
+                    c.func.attr == 'get_schema'):
+                continue
+            recv = c.func.value
+            d = dotted(recv)
+            n += 1
+            where = '%s :: %s' % (m, norm(c, 60))
+            loc = prog.loc(m, c)
+            if d in ('self',):
+                r.ok(where, 'the class being instantiated')
+                continue
+            q = prog.resolve_dotted(m, d) if d else None
+            if q in prog.classes:
+                subs = sorted(prog.subclasses.get(q, ()))
+                r.check(not subs, where,
+                        'get_schema() is called on %s, which has subclasses '
+                        '%s: they inherit its memoised schema' % (q, subs[:3]),
+                        loc)
+                continue
+            fn = owner.get(id(c))
+            poly = fn is not None and isinstance(recv, ast.Name) and any(
+                isinstance(y, ast.Call) and U.call_name(y) == 'hasattr' and
+                len(y.args) == 2 and norm(y.args[0]) == recv.id and
+                isinstance(y.args[1], ast.Constant) and
+                y.args[1].value == '_polymorphic_key'
+                for y in ast.walk(fn))
+            r.check(not poly, where,
+                    'get_schema() is called on %s, which the function '
+                    'itself treats as a polymorphic root class: its '
+                    'subclasses inherit the memoised root schema and stop '
+                    'validating their own' % norm(recv), loc)
+    if n < 10:
+        raise AnalysisError('get_schema call sites: %d found' % n)
+
+
 def run(ctx):
+    schema_memo_not_inherited(ctx)
     prog = ctx.prog
 
     # ---- R1 hardened loader ------------------------------------------------
